@@ -2,6 +2,8 @@
 #define _GNU_SOURCE
 #include <sys/stat.h>
 #include <fcntl.h>
+#include <sys/wait.h>
+#include <signal.h>
 #include <stdbool.h>
 #include <stdio.h>
 #include <stdlib.h>
@@ -200,6 +202,36 @@ int ops_table(char **args, int na)
 		struct obj *o = getobj(args[1], K_WRITER); if (!o) return -1;
 		size_t n; uint8_t *f = read_file(o->path, &n); if (!f) return -1;
 		printf("pre "); puthex(stdout, f, o->pre < n ? o->pre : n); putchar('\n'); free(f); return 0;
+	}
+	if (!strcmp(op, "open.probe") && na >= 2) {
+		/* open arbitrary bytes in a child process; outcome = reader / NULL / abort / sanitizer report / crash */
+		uint8_t *b; size_t n; if (unhex(args[1], &b, &n)) return -1;
+		char path[320]; snprintf(path, sizeof path, "%s/probe.mtbl", vf_tmpdir);
+		FILE *f = fopen(path, "wb"); if (!f) return -1;
+		fwrite(b, 1, n, f); fclose(f); free(b);
+		int verify = (int)kvnum(args + 2, na - 2, "verify", 0);
+		int byfd = (int)kvnum(args + 2, na - 2, "byfd", 0);
+		fflush(stdout);
+		pid_t pid = fork();
+		if (pid == 0) {
+			int devnull = open("/dev/null", O_WRONLY); if (devnull >= 0) dup2(devnull, 2);
+			struct mtbl_reader_options *ro = mtbl_reader_options_init();
+			mtbl_reader_options_set_verify_checksums(ro, verify);
+			struct mtbl_reader *r;
+			if (byfd) { int fd = open(path, O_RDONLY); r = mtbl_reader_init_fd(fd, ro); close(fd); }
+			else r = mtbl_reader_init(path, ro);
+			int rc = r ? 10 : 11;
+			if (r) mtbl_reader_destroy(&r);
+			_exit(rc);
+		}
+		int st = 0; waitpid(pid, &st, 0); unlink(path);
+		if (WIFEXITED(st) && WEXITSTATUS(st) == 10) puts("ok");
+		else if (WIFEXITED(st) && WEXITSTATUS(st) == 11) puts("null");
+		else if (WIFEXITED(st) && WEXITSTATUS(st) == 99) puts("asan");
+		else if (WIFSIGNALED(st) && WTERMSIG(st) == SIGABRT) puts("abort");
+		else if (WIFSIGNALED(st)) printf("crash:%d\n", WTERMSIG(st));
+		else printf("exit:%d\n", WEXITSTATUS(st));
+		return 0;
 	}
 	if ((!strcmp(op, "r.openw") || !strcmp(op, "r.openb")) && na >= 3) {
 		struct obj *src = getobj(args[2], op[6] == 'w' ? K_WRITER : K_BLOB); if (!src) return -1;
